@@ -6,6 +6,7 @@ import Usid.Driver.Attrs
 import Usid.Driver.Dup
 import Usid.Driver.MainCheck
 import Usid.Driver.Anc
+import Usid.Driver.Dims
 /-! Line-protocol driver over the hand-written models: one JSON request per line on stdin,
     one JSON response per line on stdout. -/
 namespace Usid.Driver
@@ -20,7 +21,8 @@ def handlers : List (String × (Json → R Json)) := [
   ("attrs.match", hAttrsMatch),
   ("dup.decide", hDupDecide),
   ("main.check", hMainCheck),
-  ("anc.build", hAncBuild), ("anc.make", hAncMake), ("anc.write", hAncWrite)
+  ("anc.build", hAncBuild), ("anc.make", hAncMake), ("anc.write", hAncWrite),
+  ("dims.sort", hDimsSort), ("uv.get", hUvGet), ("uv.rebuild", hUvRebuild)
 ]
 
 def respond (tbl : List (String × (Json → R Json))) (line : String) : String :=
